@@ -10,6 +10,10 @@ import (
 const c07Bits = 12
 
 func c07Queue(name, parent string, active rs.ResourceName) *rs.QueueAttributes {
+	return c07QueueBits(name, parent, active, c07Bits)
+}
+
+func c07QueueBits(name, parent string, active rs.ResourceName, c07Bits int) *rs.QueueAttributes {
 	q := &rs.QueueAttributes{UID: common_info.QueueID(name), Name: name, ParentQueue: common_info.QueueID(parent)}
 	for _, r := range rs.AllResources {
 		s := q.ResourceShare(r)
@@ -159,4 +163,48 @@ func VerifC07_Reclaim() {
 	} else {
 		vr.Assert(!(aboveFair && atLeastAsSaturated), "C07.not-above-fair-share-and-more-saturated")
 	}
+}
+
+// VerifC07_ReclaimTwoLeafQueues: victims come from two leaf queues S1, S2 of one department D; the
+// reclaimer R is a top-level sibling of D, so the level at which the queues diverge is D for both.
+// BOUND: GPU dimension; quantities integers < 2^6; one victim from each of S1 and S2; multiplier 1; leaf queues S1, S2 with quota 0 and no limit; no limits on R and D; preemptible reclaimer
+// ASSUME: reachable queue states as in VerifC07_Reclaim; children's allocation sums to at most the department's
+func VerifC07_ReclaimTwoLeafQueues() {
+	const bits = 6
+	active := rs.GpuResource
+	R := c07QueueBits("R", "", active, bits)
+	D := c07QueueBits("D", "", active, bits)
+	S1 := c07QueueBits("S1", "D", active, bits)
+	S2 := c07QueueBits("S2", "D", active, bits)
+	D.ChildQueues = []common_info.QueueID{"S1", "S2"}
+	queues := map[common_info.QueueID]*rs.QueueAttributes{"R": R, "D": D, "S1": S1, "S2": S2}
+	sD, s1, s2 := D.ResourceShare(active), S1.ResourceShare(active), S2.ResourceShare(active)
+	vr.Assume(s1.Allocated+s2.Allocated <= sD.Allocated)
+	vr.Assume(s1.FairShare+s2.FairShare <= sD.FairShare)
+	// the leaf queues' own quotas and limits play no role at the department level
+	vr.Assume(s1.Deserved == 0 && s2.Deserved == 0 && s1.MaxAllowed == -1 && s2.MaxAllowed == -1 && R.ResourceShare(active).MaxAllowed == -1 && sD.MaxAllowed == -1)
+	vr.Assume(s1.AllocatedNotPreemptible == 0 && s2.AllocatedNotPreemptible == 0)
+	req := vr.AnyFloatNat("req", bits)
+	vr.Assume(req > 0)
+	v1 := vr.AnyFloatNat("victim1", bits)
+	v2 := vr.AnyFloatNat("victim2", bits)
+	vr.Assume(v1 > 0 && v2 > 0 && v1 <= s1.Allocated && v2 <= s2.Allocated)
+	r := New(1)
+	info := &ReclaimerInfo{Name: "j", Namespace: "ns", Queue: R.UID, IsPreemptable: true, RequiredResources: c07Res(active, req)}
+	can := r.CanReclaimResources(queues, info)
+	ok := r.Reclaimable(queues, info, map[common_info.QueueID][]*resource_info.Resource{
+		S1.UID: {c07Res(active, v1)}, S2.UID: {c07Res(active, v2)}})
+	vr.Observe("can", can)
+	vr.Observe("reclaimable", ok)
+	if !can || !ok {
+		return
+	}
+	// whatever order the two victims were taken in, the department was above its deserved quota or
+	// its fair share just before the last one; the larger victim taken last is the most favourable order
+	larger := v1
+	if v2 > larger {
+		larger = v2
+	}
+	final := sD.Allocated - v1 - v2
+	vr.Assert(c07OverDeservedOrFair(sD, final+larger), "C07.department-above-deserved-or-fair-share-before-its-last-victim")
 }
